@@ -694,6 +694,12 @@ func main() {
 		if !serves(sc, f.Prop) || (f.Engine != "" && f.Engine != "mux" && f.Engine != sc.Name) {
 			continue
 		}
+		if only := os.Getenv("VERIF_MUX_SCENARIO"); only != "" && only != sc.Name {
+			continue // experiments: one scenario, optionally with another bound
+		}
+		if bs := os.Getenv("VERIF_MUX_BOUND"); bs != "" {
+			fmt.Sscan(bs, &sc.Bound[tierIdx])
+		}
 		ex := &vsched.Explorer{Sc: sc.scenario(), Bound: sc.Bound[tierIdx], Shard: f.Shard, NShards: f.NShards, Deadline: deadline}
 		if err := ex.Run(); err != nil {
 			rep.Fatal(f, "%v", err)
